@@ -41,7 +41,7 @@ def run(ctx):
             "sess:drop-after-k", "sess:drop-mid-message", "sess:reconnected", "sess:stable", "sess:closed", "sess:messages",
             "sess:close-in-backoff-refusals", "sess:set-right-after-drop", "sess:cap-flip-on-off", "sess:cap-flip-off-on",
             "sess:capflip-ebgp-updates-after-flip", "sess:ebgp-updates-with-connection-width",
-            "sess:hold=0", "sess:hold=nil", "sess:close-in-handshake", "sess:set-during-write", "sess:set-during-write-messages", "step:abort", "step:abort-with-pending", "step:Set", "step:Set(invalid)", "step:Close"]
+            "sess:hold=0", "sess:hold=nil", "sess:keepalive-schedule-keepalives", "sess:failed-attempt-after-a-success", "step:backoff", "step:readerdrop", "step:keepalive", "sess:close-in-handshake", "sess:set-during-write", "sess:set-during-write-messages", "step:abort", "step:abort-with-pending", "step:Set", "step:Set(invalid)", "step:Close"]
     if not thorough:
         need = [k for k in need if k not in ("sess:closed",)] + []
     if cases and any(stats.get(k, 0) == 0 for k in need):
@@ -62,7 +62,7 @@ def run(ctx):
     ctx.trusted += [
         "model covers internal/bgp/native/native.go run/connect(handshake verdict)/sendUpdates/Set/validate/abort/sendKeepalive(failure)/consumeBGP(defer)/Close; "
         "each model step is one critical section of s.mu",
-        "white-box step cases compare abort/Set/Close on session values with the model's step functions (state-level correspondence)",
+        "white-box step cases compare abort/Set/Close/consumeBGP-return/sendKeepalive on session values and backoff.Duration/Reset sequences with the model's step functions (state-level correspondence)",
         "trace validation is a necessary condition: the replay (Corr/Run_Session.v) checks handshake verdicts against hs_accept, per-message justification "
         "(theorem C17_emitted_justified) with monotone Set index, silence after Close, and final table = last Set; it does not reconstruct the session's internal steps",
         "the scripted peer (harness) and its RFC 4271 decoder vDecode; Linux loopback TCP",
@@ -77,6 +77,7 @@ def run(ctx):
                "then either Close or leave the connection alone and wait for convergence; plus fixed schedules: MyASN=65536 vs 2-octet peer, Close during backoff, "
                "capability flip on->off / off->on x eBGP / iBGP, configured hold time 0 / nil (every schedule draws the hold time from {nil,0,3,30,90,7,4.5,65535 s} and the peer checks the session's OPEN field by field), "
                "Close() landing inside a connection attempt (peer delays its OPEN: after accept, after the peer's OPEN, during the reconnect after a flap), "
+               "hold time 3 s with 2.3 s idle (keepalive cadence), timed events (TAt) for the backoff / keepalive lower bounds, "
                "Set() calls inside the sender's write window (real sendUpdates/Set on a net.Pipe connection whose peer stops reading mid-flush); "
                "plus white-box step cases (abort / Set / invalid Set / Close on hand-built session values, state before/after compared with the model step); "
                "non-trivial = trace of at least 6 events or a white-box step; distinct by content",
